@@ -8,6 +8,7 @@ mod heap;
 mod hll;
 mod lc;
 mod qf;
+mod rs;
 
 use common::*;
 use serde_json::{json, Value};
@@ -97,6 +98,9 @@ fn main() {
         ("scenario", "heap") => scenario::<heap::HeapSut>(&args),
         ("drive", "heap") => heap::drive(&args),
         ("learn", "heap") => heap::learn(&args),
+        ("replay", "rs") => replay::<rs::RsSut>(&args),
+        ("scenario", "rs") => scenario::<rs::RsSut>(&args),
+        ("drive", "rs") => rs::drive(&args),
         ("replay", "ck") => replay::<ck::CkSut>(&args),
         ("scenario", "ck") => scenario::<ck::CkSut>(&args),
         ("drive", "ck") => ck::drive(&args),
